@@ -422,26 +422,33 @@ def rule_implicit_raisers(ctx, rep, rid: str, only: Optional[Callable[[str], boo
                 spec = ("non-zero divisor", ("ZeroDivisionError",), "1 / 0 -> ZeroDivisionError")
                 arg = n.right
                 label = {ast.Div: "/", ast.FloorDiv: "//", ast.Mod: "%"}[type(n.op)]
-            if spec is None:
-                continue
-            if env is None:
-                env = _env_cache(ctx, f)
-            n_sites += 1
-            need, classes, repro = spec
-            site_txt = short(n, 70)
-            key = f"{f.qual}:{site_txt}"
-            seen_keys[key] = seen_keys.get(key, 0) + 1
-            if seen_keys[key] > 1:
-                key = f"{key}#{seen_keys[key]}"
-            loc = f"{f.module.rel}:{n.lineno}"
-            verdict = _judge(label, n, arg, f, env, t, classes)
-            if verdict is not None and (f.qual, site_txt) in PROVED_BY_HAND:
-                rep.ok(rid, key, {"proved_by_hand": PROVED_BY_HAND[(f.qual, site_txt)]})
-                continue
-            if verdict is None:
-                rep.ok(rid, key)
-            else:
-                rep.bad(rid, key, f"{f.qual}: `{site_txt}` needs a {need}, but {verdict}; CPython raises {'/'.join(classes)} ({repro}), which leaves eval as a host exception", loc)
+            cands = [(spec, arg, label, "")] if spec is not None else []
+            if spec is None and isinstance(n, ast.Call) and isinstance(n.func, ast.Name) and n.args:
+                # a host library function that reached this call as a value: fn(x) with fn = math.log, ...
+                cs = ctx.cg.site_of_call.get(id(n))
+                if cs is not None and cs.kind == "external" and cs.ext:
+                    for d in cs.ext.split("|"):
+                        if d in RAISERS and RAISERS[d][1]:
+                            cands.append((RAISERS[d], n.args[0], d, f" [{n.func.id} = {d}]"))
+            for spec, arg, label, suffix in cands:
+                if env is None:
+                    env = _env_cache(ctx, f)
+                n_sites += 1
+                need, classes, repro = spec
+                site_txt = short(n, 70) + suffix
+                key = f"{f.qual}:{site_txt}"
+                seen_keys[key] = seen_keys.get(key, 0) + 1
+                if seen_keys[key] > 1:
+                    key = f"{key}#{seen_keys[key]}"
+                loc = f"{f.module.rel}:{n.lineno}"
+                verdict = _judge(label, n, arg, f, env, t, classes)
+                if verdict is not None and (f.qual, site_txt) in PROVED_BY_HAND:
+                    rep.ok(rid, key, {"proved_by_hand": PROVED_BY_HAND[(f.qual, site_txt)]})
+                    continue
+                if verdict is None:
+                    rep.ok(rid, key)
+                else:
+                    rep.bad(rid, key, f"{f.qual}: `{site_txt}` needs a {need}, but {verdict}; CPython raises {'/'.join(classes)} ({repro}), which leaves eval as a host exception", loc)
     rep.analysed["implicit_raiser_sites"] = n_sites
 
 
